@@ -100,6 +100,34 @@ pub fn hook(gn: &mut Gen, w: &mut World) -> Option<Step> {
             if !w.is_active_member(node, g) || w.has_pending_commit(node, g) {
                 return None;
             }
+            if gn.rng().chance(1, 5) && !gn.cfg.guards.contains("no_leave") {
+                // story: a member's Add / Remove proposal is queued at an admin, then somebody
+                // asks to leave and the admin's client commits the leave automatically
+                let admins: Vec<usize> = (0..n_nodes).filter(|a| *a != node && w.is_admin(*a, g) && w.is_active_member(*a, g) && !w.has_pending_commit(*a, g)).collect();
+                let leavers: Vec<usize> = (0..n_nodes).filter(|l| w.is_active_member(*l, g) && !w.has_pending_commit(*l, g) && !admins.contains(l)).collect();
+                if let (Some(a), Some(l)) = (admins.first().copied(), gn.rng().pick(&leavers).copied()) {
+                    let same = w.node_state(a, g) == w.node_state(node, g) && w.node_state(a, g) == w.node_state(l, g);
+                    let others: Vec<usize> = (0..n_nodes).filter(|v| *v != node && *v != l && w.is_active_member(*v, g)).collect();
+                    if same && !others.is_empty() {
+                        let kind = gn.rng().below(2) as u8;
+                        let v = others[gn.rng().below(others.len() as u64) as usize];
+                        let first = gn.mk(w, node, 0, Op::Hostile(HostileOp::CraftedProposal { g, kind, victim: v }));
+                        let p1 = EvRef(first.id, 0);
+                        let st = gn.mk(w, a, 0, Op::Deliver { ev: p1 });
+                        gn.queue.push_back(st);
+                        let lv = gn.mk(w, l, 1, Op::Leave { g });
+                        let p2 = EvRef(lv.id, 0);
+                        gn.queue.push_back(lv);
+                        let st = gn.mk(w, a, 0, Op::Deliver { ev: p2 });
+                        let auto = EvRef(st.id, 0);
+                        gn.queue.push_back(st);
+                        let st = if gn.rng().chance(1, 2) { gn.mk(w, a, 0, Op::MergePending { g }) } else { gn.mk(w, a, 0, Op::Deliver { ev: auto }) };
+                        gn.queue.push_back(st);
+                        w.probe("proposal_then_leave_story_scripted");
+                        return Some(first);
+                    }
+                }
+            }
             HostileOp::CraftedProposal { g, kind: gn.rng().below(3) as u8, victim }
         }
         "h_garbage" => {
@@ -151,7 +179,7 @@ pub fn hook(gn: &mut Gen, w: &mut World) -> Option<Step> {
                 let i = gn.rng().below(w.welcomes.len() as u64) as usize;
                 HostileOp::RewrappedWelcome { w: w.welcomes[i].origin, seed }
             } else {
-                HostileOp::HostileWelcome { victim, mode: gn.rng().below(7) as u8, g, seed }
+                HostileOp::HostileWelcome { victim, mode: gn.rng().below(10) as u8, g, seed }
             }
         }
     };
